@@ -18,10 +18,10 @@ Clauses(t) ==
       c2 == IF SumsBack(B) THEN {} ELSE {<<"blocks-do-not-sum-to-the-point", 0>>}
       c3 == IF OneBlockIdentity(B, dd) THEN {} ELSE {<<"one-block-partition-is-not-the-identity", 0>>}
       \* what get_block returned is the stored block, and the same object on every repetition
-      c4 == {<<"returned-block-is-not-block-k", i>> : i \in {j \in 1..Len(t.h) :
-                 t.out[j] # "ok" \/ Len(B[t.h[j].p]) < t.h[j].k \/ Sparse(t.ret[j], MaxP) # B[t.h[j].p][t.h[j].k]}}
+      c4 == {<<"returned-block-is-not-block-k", i>> : i \in {j \in 1..Len(t.h) : t.h[j].p # 0 /\ (
+                 t.out[j] # "ok" \/ Len(B[t.h[j].p]) < t.h[j].k \/ Sparse(t.ret[j], MaxP) # B[t.h[j].p][t.h[j].k])}}
       c5 == {<<"asking-again-returns-another-object", i>> : i \in {j \in 1..Len(t.h) :
-                 \E q \in 1..Len(t.h) : q < j /\ t.h[q] = t.h[j] /\ t.oid[q] # t.oid[j]}}
+                 t.h[j].p # 0 /\ \E q \in 1..Len(t.h) : q < j /\ t.h[q] = t.h[j] /\ t.oid[q] # t.oid[j]}}
       c6 == (IF expC \subseteq obsC THEN {} ELSE {<<"orthogonality-relation-missing", Cardinality(expC \ obsC)>>})
             \cup (IF obsC \subseteq expC THEN {} ELSE {<<"constraint-beyond-orthogonality", Cardinality(obsC \ expC)>>})
       c7 == IF \A k \in 1..Len(t.cons) : t.cons[k].sense = "eq" THEN {} ELSE {<<"orthogonality-is-not-an-equality", 0>>}
